@@ -3,7 +3,7 @@
 import json, os, shutil, sys
 ID, name, prop, caught = sys.argv[1:5]
 needs = " ".join(sys.argv[5:])
-src = "/tmp/seed_out/%s" % ID
+src = os.path.join(os.environ.get("OUTBASE", "/tmp/seed_out"), ID)
 dst = os.path.join(os.path.dirname(os.path.dirname(os.path.abspath(__file__))), "seeded", name)
 os.makedirs(dst, exist_ok=True)
 for f in ("patch.diff", "demo.py", "notes.md"):
